@@ -169,6 +169,7 @@ int main(int argc, char **argv) {
 	pthread_t wd;
 	vh_seed(&r, (uint64_t)vh_argi(argc, argv, "--seed", 1) * 0x9E3779B97F4A7C15ULL);
 	wd_limit_s = (int)vh_argi(argc, argv, "--stall", 45);
+	vh_max_viol = 3;      /* a failing wake scenario costs 20 s of waiting: three witnesses are enough, keep the run short */
 	p_libsys_init();
 	pthread_create(&wd, NULL, wd_fn, NULL);
 	for (i = 0; i < wakes && vh_nviol < vh_max_viol; i++) { int W = 1 + (int)vh_below(&r, (uint64_t)maxw); run_wake(W, (int)(i % 3)); }
